@@ -1,5 +1,6 @@
 //! Suite `engine`: programs + query, run with next_solution() until exhaustion and re-asked.
 use std::rc::Rc;
+use std::cell::RefCell;
 use std::panic::{catch_unwind, AssertUnwindSafe};
 use suiron::*;
 use crate::prng::Rng;
@@ -476,7 +477,17 @@ pub fn emit_c11(out: &mut Out, cfg: &Cfg, c: &Case, r: &mut Rng) {
     let base = match emit_info(out, cfg, c) { Some(i) => i, None => { for _ in 0..4 { let _ = out.begin(); } return; } };
     let want = canon_answers(&base);
     let perm: Vec<usize> = { let mut p: Vec<usize> = (0..VARS.len()).collect(); for i in (1..p.len()).rev() { let j = r.below(i + 1); p.swap(i, j); } p };
+    // canonical names: the variables of every rule numbered by first occurrence ($V1, $V2, ...) — clauses that are
+    // alpha-variants of each other become literally identical
+    let canon_maps: Vec<Vec<(String, String)>> = c.rules.iter().map(|rule| {
+        let seen: RefCell<Vec<String>> = RefCell::new(vec![]);
+        let note = |n: &str| -> String { if !seen.borrow().iter().any(|x| x == n) { seen.borrow_mut().push(n.to_string()); } n.to_string() };
+        let _ = map_names_term(&rule.head, &note); let _ = map_names_goal(&rule.body, &note);
+        let v = seen.borrow().clone();
+        v.iter().enumerate().map(|(k, n)| (n.clone(), format!("$V{}", k + 1))).collect()
+    }).collect();
     let variants: Vec<Box<dyn Fn(usize, &str) -> String>> = vec![
+        Box::new(move |ri, n| { canon_maps.get(ri).and_then(|m| m.iter().find(|(a, _)| a == n)).map(|(_, b)| b.clone()).unwrap_or(n.to_string()) }),
         // every rule gets its own fresh names
         Box::new(|ri, n| format!("$R{}{}", ri, &n[1..])),
         // all rules: the same permutation of the shared pool (which is also the query's pool)
@@ -548,5 +559,22 @@ pub fn emit_c11(out: &mut Out, cfg: &Cfg, c: &Case, r: &mut Rng) {
 
 pub fn run_c11(out: &mut Out, cfg: &Cfg, w: &Weights, seed: u64, n: usize) {
     let mut r = Rng::new(seed);
-    for _ in 0..n { let c = gen_program(&mut r, w); emit_c11(out, cfg, &c, &mut r); }
+    for i in 0..n {
+        let mut c = gen_program(&mut r, w);
+        // every third program: some clauses occur twice, the copy with its variables renamed (an alpha-variant of
+        // the original, right after it) — both must be kept and both must answer, whatever the names
+        if i % 3 == 2 {
+            let mut rules = vec![];
+            for rule in &c.rules {
+                rules.push(rule.clone());
+                if r.chance(1, 3) {
+                    let f = |n: &str| -> String { match VARS.iter().position(|v| *v == n) { Some(k) => VARS[(k + 1) % VARS.len()].to_string(), None => format!("{}q", n) } };
+                    rules.push(Rule{head: map_names_term(&rule.head, &f), body: map_names_goal(&rule.body, &f)});
+                    out.stat("c11_alpha_variant_clauses", 1);
+                }
+            }
+            c.rules = rules;
+        }
+        emit_c11(out, cfg, &c, &mut r);
+    }
 }
